@@ -101,5 +101,18 @@ def main(a):
     r = "FixFloatMonotone is violated" in out
     print("numeric spec mutant pinned UnsignedAsFloat: %s" % ("refuted" if r else "NOT REFUTED"))
     ok = ok and r
+    # soundness lemmas of the run-length records, machine-checked with TLAPS (skipped when tlapm is unavailable)
+    import shutil, subprocess
+    if shutil.which("tlapm"):
+        d = os.path.join(ctx.work, "tlaps")
+        os.makedirs(d, exist_ok=True)
+        shutil.copy(os.path.join(ctx.spec, "SegLemmas.tla"), d)
+        try:
+            r = subprocess.run(["tlapm", "--threads", "8", "SegLemmas.tla"], cwd=d, capture_output=True, text=True, timeout=600)
+            proved = "obligations proved" in (r.stdout + r.stderr) and "failed" not in (r.stdout + r.stderr).lower()
+        except subprocess.TimeoutExpired:
+            proved = False
+        print("TLAPS SegLemmas (run-length records stand for every element of a run): %s" % ("all obligations proved" if proved else "NOT PROVED"))
+        ok = ok and proved
     print("SELFTEST", "PASSED" if ok else "FAILED")
     return 0 if ok else 1
